@@ -1,33 +1,104 @@
-"""Token -> constructor -> attribute -> args() -> encoder-parameter dataflow for parse_item (and similar
-straight-line token-shuffling code).  A tiny path-enumerating provenance evaluator: values are *where a token went*,
-never token contents.
+"""Token -> constructor -> attribute -> args() -> encoder-parameter dataflow for parse_item / parse_immediate (and similar
+token-shuffling code).  A small path-enumerating provenance evaluator: values are *where a token went*, never token contents.
+
+The whole function is walked from its first statement; calls of module-level helpers, of closures returned by parser factories and
+of functions stored in module-level dispatch tables are inlined (the factory call is evaluated symbolically with its constant
+arguments, then the returned closure is walked), `for names, parser in TABLE:` over a literal module-level table is unrolled, and
+`tokens[a:b]` slices are the same provenance as star-unpacking.  Every path ends in an Outcome (the `return` of an item / the
+`raise`); outcomes are grouped by what the path knows about the *head* (the lower-cased first token):
+
+  ('table', NAME)   head in NAME           (first positive membership fact on the path, NAME a module-level table / set)
+  ('head', 'x')     head == 'x'            (also: head in {'x'}, or the only value left of a known set after `!=` tests)
+  ('other', text)   no fact about the head, first positive other condition
+  else-outcomes     no positive condition at all
+
+so an if/elif chain, a sequence of early-return ifs and an ordered dispatch table tried in priority order give the same arms.
 
 Provenance values (tuples):
   ('tok', k)            tokens[k]
   ('tokend', k)         tokens[-k]
   ('rest', k, e)        tokens[k:len-e] as a list
   ('lower', p)          p.lower()
-  ('list', [p...])      list literal
+  ('list', [p...])      list / tuple literal
   ('imm', p)            parse_immediate(p, line)
   ('int', p)            int(p, base=0)
   ('const', v)          folded constant
   ('line',)             the Line object
-  ('call', fname, [p])  other call (kept symbolically)
+  ('call', fname, [p], {k: p})  other call (kept symbolically; fname is a class name for constructor calls)
+  ('star', p)           *p in an argument list (kept only when the number of tokens is not known)
+  ('ref', NAME)         module-level table / set NAME
+  ('func', name)        module-level function
+  ('closure', FunctionDef, env)   nested function with the environment it was defined in
+  ('classref', name)    a class of the module used as a value
   ('expr', text)        anything else
 """
 import ast
+import copy as _copy
 
 from .core import AnalysisError
-from .astutil import fold, NotConstant, unparse, dotted, find_function
+from .astutil import fold, NotConstant, unparse, dotted
+from .pathwalk import DEFAULT_OPAQUE
+
+OPAQUE = set(DEFAULT_OPAQUE) | {'parse_immediate', 'is_int', 'lookup_register'}
+NON_NONE = {'func', 'closure', 'classref', 'list', 'rest', 'tok', 'tokend', 'lower', 'line', 'imm', 'int', 'ref', 'star'}
+MAX_PATHS = 20000
+MAX_DEPTH = 12
+
+
+def _replace(node, target, repl):
+    """Copy of the expression with `target` replaced (only the spine down to the target is copied; the analysed tree, whose nodes
+    carry parent links, is never modified)."""
+    if node is target:
+        return repl
+    if not any(n is target for n in ast.walk(node)):
+        return node
+    new = _copy.copy(node)
+    for field, value in ast.iter_fields(node):
+        if isinstance(value, ast.AST):
+            setattr(new, field, _replace(value, target, repl))
+        elif isinstance(value, list):
+            setattr(new, field, [_replace(x, target, repl) if isinstance(x, ast.AST) else x for x in value])
+    return new
+
+
+def table_values(facts, ref):
+    """Set of names of a ('ref', NAME) / ('const', collection) value, or None."""
+    if ref[0] == 'ref':
+        t = facts.tables.get(ref[1])
+        if t is not None:
+            return set(t)
+        s_ = facts.sets.get(ref[1])
+        return set(s_) if s_ is not None else None
+    if ref[0] == 'const' and isinstance(ref[1], (set, frozenset, list, tuple, dict)):
+        return set(ref[1])
+    return None
+
+
+def admits(facts, path, head):
+    """Can a line whose lower-cased first token is `head` take this path?  Decided from the path's facts about the head (tests
+    of earlier arms that came out negative included, so first-match-wins dispatch is honoured)."""
+    for f in path.head_facts:
+        if f[0] == 'eq':
+            if (head == f[1]) != f[2]:
+                return False
+        elif f[0] == 'in':
+            vals = table_values(facts, f[1])
+            if vals is not None and (head in vals) != f[2]:
+                return False
+    return True
 
 
 class Path:
     def __init__(self):
         self.env = {}
-        self.conds = []        # (text, polarity)
+        self.conds = []        # (text, polarity, node)
         self.min_tokens = 0
         self.exact_tokens = None
         self.events = []
+        self.head_facts = []   # ('eq', value, polarity, node) / ('in', NAME or frozenset, polarity, node) about the head token
+        self.tok_facts = []    # ('tok_eq', provenance, const, polarity) / ('is_int', provenance, polarity)
+        self.flow = None       # None | 'break' | 'continue'
+        self.ctor = None       # (value, node): the constructor call value most recently built by a `return`
 
     def clone(self):
         p = Path()
@@ -36,7 +107,19 @@ class Path:
         p.min_tokens = self.min_tokens
         p.exact_tokens = self.exact_tokens
         p.events = list(self.events)
+        p.head_facts = list(self.head_facts)
+        p.tok_facts = list(self.tok_facts)
+        p.flow = self.flow
+        p.ctor = self.ctor
         return p
+
+    # -- what the path knows -------------------------------------------------------------------------------------------------
+    def paren_form(self):
+        """The path was taken because some token equals '(' (the `imm(reg)` operand syntax)."""
+        return any(f[0] == 'tok_eq' and f[2] == '(' and f[3] for f in self.tok_facts)
+
+    def head_sets(self, positive=True):
+        return [f[1] for f in self.head_facts if f[0] == 'in' and f[2] == positive]
 
 
 class Outcome:
@@ -52,61 +135,362 @@ class Outcome:
         return ' and '.join(('' if c[1] else 'not ') + '(' + c[0] + ')' for c in self.path.conds) or 'always'
 
 
+class _Frame:
+    def __init__(self, name):
+        self.name = name
+        self.returns = []      # (path, value)
+
+
 class TokenFlow:
-    def __init__(self, facts, tokens_name='tokens', line_name='line', consts=None):
+    def __init__(self, facts, tokens_name='tokens', line_name='line', consts=None, roots=None):
         self.facts = facts
         self.tokens_name = tokens_name
         self.line_name = line_name
         self.consts = consts or facts.consts
+        self.roots = roots or {}           # parameter name -> provenance at the top level
+        self._frames = []
+        self._module_cache = {}
+        self._tmp = 0
+        self._paths = 0
 
+    # -- names ----------------------------------------------------------------------------------------------------------------
+    def module_value(self, name):
+        """Provenance of a module-level name."""
+        f = self.facts
+        if name in f.tables or name in f.sets:
+            return ('ref', name)
+        if name in self.consts:
+            return ('const', self.consts[name])
+        if name in f.funcs:
+            return ('func', name)
+        if name in f.classes:
+            return ('classref', name)
+        if name in f.assign_nodes:
+            if name in self._module_cache:
+                v = self._module_cache[name]
+                if v is None:
+                    raise AnalysisError('token-flow: module-level name {} is defined in terms of itself'.format(name))
+                return v
+            self._module_cache[name] = None
+            node = f.assign_nodes[name]
+            p = Path()
+            saved, self._frames = self._frames, []
+            try:
+                st = ast.copy_location(ast.Assign(targets=[ast.Name(id='__module_value', ctx=ast.Store())], value=node.value), node)
+                sink = []
+                live = self._stmt(st, p, sink)
+            finally:
+                self._frames = saved
+            if len(live) != 1 or sink:
+                raise AnalysisError('token-flow: module-level table {} is not built by straight-line code'.format(name))
+            v = live[0].env['__module_value']
+            self._module_cache[name] = v
+            return v
+        return None
+
+    def table_values(self, ref):
+        return table_values(self.facts, ref)
+
+    # -- expressions ----------------------------------------------------------------------------------------------------------
     def ev(self, node, path):
         if isinstance(node, ast.Name):
             if node.id in path.env:
                 return path.env[node.id]
-            if node.id == self.tokens_name:
-                return ('rest', 0, 0)
-            if node.id == self.line_name:
-                return ('line',)
-            try:
-                return ('const', fold(node, self.consts))
-            except NotConstant:
-                return ('expr', node.id)
+            if not self._frames:
+                if node.id in self.roots:
+                    return self.roots[node.id]
+                if node.id == self.tokens_name:
+                    return ('rest', 0, 0)
+                if node.id == self.line_name:
+                    return ('line',)
+            mv = self.module_value(node.id)
+            if mv is not None:
+                return mv
+            return ('expr', node.id)
         if isinstance(node, ast.Constant):
             return ('const', node.value)
-        if isinstance(node, ast.List):
-            return ('list', [self.ev(e, path) for e in node.elts])
-        if isinstance(node, ast.Subscript) and isinstance(node.value, ast.Name) and node.value.id == self.tokens_name:
-            try:
-                k = fold(node.slice)
-                if isinstance(k, int):
-                    return ('tok', k) if k >= 0 else ('tokend', -k)
-            except NotConstant:
-                pass
+        if isinstance(node, (ast.List, ast.Tuple)):
+            out = []
+            for e in node.elts:
+                if isinstance(e, ast.Starred):
+                    out.extend(self._splice(self.ev(e.value, path), path))
+                else:
+                    out.append(self.ev(e, path))
+            return ('list', out)
+        if isinstance(node, ast.Attribute):
+            base = self.ev(node.value, path)
+            if base == ('line_tokens',):
+                if node.attr == 'tokens':
+                    return ('rest', 0, 0)
+                if node.attr == 'line':
+                    return ('line',)
+            return ('expr', unparse(node))
         if isinstance(node, ast.Subscript):
             base = self.ev(node.value, path)
+            if isinstance(node.slice, ast.Slice):
+                sl = node.slice
+                if sl.step is None and base[0] in ('rest', 'list'):
+                    try:
+                        lo = self._int(sl.lower, path, 0)
+                        hi = self._int(sl.upper, path, None)
+                    except NotConstant:
+                        lo = hi = 'x'
+                    if base[0] == 'rest' and lo != 'x' and lo >= 0 and (hi is None or hi < 0):
+                        return ('rest', base[1] + lo, base[2] + (-hi if hi is not None else 0))
+                    if base[0] == 'list' and lo != 'x':
+                        return ('list', base[1][lo:hi])
+                return ('expr', unparse(node))
             try:
-                k = fold(node.slice)
+                k = self._int(node.slice, path, None)
             except NotConstant:
                 k = None
-            if base[0] == 'rest' and isinstance(k, int) and k >= 0:
-                return ('tok', base[1] + k)
-            if base[0] == 'list' and isinstance(k, int) and 0 <= k < len(base[1]):
-                return base[1][k]
+            if isinstance(k, int):
+                if base[0] == 'rest':
+                    if k >= 0:
+                        path.min_tokens = max(path.min_tokens, base[1] + k + 1 + base[2])
+                        return ('tok', base[1] + k)
+                    return ('tokend', base[2] - k)
+                if base[0] == 'list' and -len(base[1]) <= k < len(base[1]):
+                    return base[1][k]
+            return ('expr', unparse(node))
         if isinstance(node, ast.Call):
-            fn = dotted(node.func)
-            if isinstance(node.func, ast.Attribute) and node.func.attr == 'lower' and not node.args:
-                return ('lower', self.ev(node.func.value, path))
-            if fn == 'parse_immediate' and node.args:
-                return ('imm', self.ev(node.args[0], path))
-            if fn == 'int' and node.args:
-                return ('int', self.ev(node.args[0], path))
-            return ('call', fn or unparse(node.func), [self.ev(a, path) for a in node.args],
-                    {kw.arg: self.ev(kw.value, path) for kw in node.keywords if kw.arg})
+            return self._call_value(node, path)
+        if isinstance(node, ast.BinOp) and isinstance(node.op, ast.Add):
+            a, b = self.ev(node.left, path), self.ev(node.right, path)
+            if a[0] == 'list' and b[0] == 'list':
+                return ('list', a[1] + b[1])
+        if isinstance(node, ast.IfExp):
+            d = self.decide(node.test, path)
+            if d is not None:
+                return self.ev(node.body if d else node.orelse, path)
+            return ('expr', unparse(node))
         try:
-            return ('const', fold(node, self.consts))
+            return ('const', fold(node, self._fold_env(path)))
         except NotConstant:
             return ('expr', unparse(node))
 
+    def _fold_env(self, path):
+        env = dict(self.consts)
+        for k, v in path.env.items():
+            if isinstance(v, tuple) and v and v[0] == 'const':
+                env[k] = v[1]
+            elif k in env:
+                del env[k]
+        return env
+
+    def _int(self, node, path, default):
+        if node is None:
+            return default
+        v = fold(node, self._fold_env(path))
+        if v is None:
+            return default
+        if not isinstance(v, int) or isinstance(v, bool):
+            raise NotConstant('not an int')
+        return v
+
+    def _splice(self, v, path):
+        """Elements of *v inside a list / argument list."""
+        if v[0] == 'list':
+            return list(v[1])
+        if v[0] == 'rest' and path.exact_tokens is not None:
+            return [('tok', i) for i in range(v[1], path.exact_tokens - v[2])]
+        return [('star', v)]
+
+    def _call_value(self, node, path):
+        fn = dotted(node.func)
+        if isinstance(node.func, ast.Attribute) and node.func.attr == 'lower' and not node.args:
+            return ('lower', self.ev(node.func.value, path))
+        target = None
+        if isinstance(node.func, ast.Name):
+            target = self.ev(node.func, path)
+            if target[0] == 'classref':
+                fn = target[1]
+        args = []
+        for a in node.args:
+            if isinstance(a, ast.Starred):
+                v = self.ev(a.value, path)
+                vararg_cls = False
+                if target is not None and target[0] == 'classref':
+                    owner = self.facts.init_owner(target[1])
+                    vararg_cls = owner is not None and bool(owner.init_vararg)
+                if v[0] == 'rest' and vararg_cls:
+                    args.append(('star', v))
+                else:
+                    args.extend(self._splice(v, path))
+            else:
+                args.append(self.ev(a, path))
+        kwargs = {kw.arg: self.ev(kw.value, path) for kw in node.keywords if kw.arg}
+        if fn == 'parse_immediate' and args:
+            return ('imm', args[0])
+        if fn == 'int' and args:
+            return ('int', args[0])
+        if fn in ('list', 'tuple') and len(args) == 1 and args[0][0] in ('rest', 'list') and not kwargs:
+            return args[0]
+        if fn == 'len' and len(args) == 1 and args[0][0] == 'list' and not any(x[0] == 'star' for x in args[0][1]):
+            return ('const', len(args[0][1]))
+        return ('call', fn or unparse(node.func), args, kwargs)
+
+    # -- tests ----------------------------------------------------------------------------------------------------------------
+    def is_head(self, v):
+        return v == ('lower', ('tok', 0))
+
+    def _len_of_rest(self, test, path):
+        """(rest provenance, op, n) for `len(<token list>) <op> n`."""
+        if (isinstance(test, ast.Compare) and len(test.ops) == 1 and isinstance(test.left, ast.Call)
+                and dotted(test.left.func) == 'len' and len(test.left.args) == 1):
+            v = self.ev(test.left.args[0], path)
+            if v[0] == 'rest':
+                try:
+                    n = self._int(test.comparators[0], path, None)
+                except NotConstant:
+                    return None
+                if n is not None:
+                    return v, test.ops[0], n
+        return None
+
+    def decide(self, test, path):
+        """True / False / None under what the path already knows."""
+        if isinstance(test, ast.UnaryOp) and isinstance(test.op, ast.Not):
+            d = self.decide(test.operand, path)
+            return None if d is None else not d
+        if isinstance(test, ast.BoolOp):
+            vals = [self.decide(v, path) for v in test.values]
+            if isinstance(test.op, ast.And):
+                if any(v is False for v in vals):
+                    return False
+                return True if all(v is True for v in vals) else None
+            if any(v is True for v in vals):
+                return True
+            return False if all(v is False for v in vals) else None
+        lr = self._len_of_rest(test, path)
+        if lr is not None and path.exact_tokens is not None:
+            v, op, n = lr
+            have = path.exact_tokens - v[1] - v[2]
+            table = {ast.Eq: have == n, ast.NotEq: have != n, ast.Lt: have < n, ast.LtE: have <= n, ast.Gt: have > n, ast.GtE: have >= n}
+            if type(op) in table:
+                return table[type(op)]
+        if isinstance(test, ast.Compare) and len(test.ops) == 1:
+            left = self.ev(test.left, path)
+            right = self.ev(test.comparators[0], path)
+            op = test.ops[0]
+            if right == ('const', None) and isinstance(op, (ast.Is, ast.IsNot, ast.Eq, ast.NotEq)) and left[0] in NON_NONE:
+                return isinstance(op, (ast.IsNot, ast.NotEq))
+            if left[0] == 'const' and right[0] == 'const':
+                try:
+                    a, b = left[1], right[1]
+                    table = {ast.Eq: lambda: a == b, ast.NotEq: lambda: a != b, ast.In: lambda: a in b, ast.NotIn: lambda: a not in b,
+                             ast.Lt: lambda: a < b, ast.LtE: lambda: a <= b, ast.Gt: lambda: a > b, ast.GtE: lambda: a >= b,
+                             ast.Is: lambda: a is b, ast.IsNot: lambda: a is not b}
+                    if type(op) in table:
+                        return bool(table[type(op)]())
+                except TypeError:
+                    return None
+            if self.is_head(left):
+                eq = [f[1] for f in path.head_facts if f[0] == 'eq' and f[2]]
+                if eq and right[0] == 'const' and isinstance(op, (ast.Eq, ast.NotEq)):
+                    r = eq[0] == right[1]
+                    return r if isinstance(op, ast.Eq) else not r
+                if isinstance(op, (ast.In, ast.NotIn)):
+                    for f in path.head_facts:
+                        if f[0] == 'in' and f[1] == right:
+                            return f[2] == isinstance(op, ast.In)
+                    vals = self.table_values(right)
+                    if vals is not None:
+                        excluded = set()
+                        for f in path.head_facts:
+                            if not f[2]:
+                                excluded |= {f[1]} if f[0] == 'eq' else (self.table_values(f[1]) or set())
+                        if vals <= excluded:
+                            return isinstance(op, ast.NotIn)
+                        cands = self.head_candidates(path)
+                        if eq:
+                            cands = {eq[0]}
+                        if cands is not None:
+                            if cands <= vals:
+                                return isinstance(op, ast.In)
+                            if not (cands & vals):
+                                return isinstance(op, ast.NotIn)
+                if isinstance(op, (ast.Eq, ast.NotEq)) and right[0] == 'const':
+                    cands = self.head_candidates(path)
+                    if cands is not None and right[1] not in cands:
+                        return isinstance(op, ast.NotEq)
+                    if any(f[0] == 'eq' and not f[2] and f[1] == right[1] for f in path.head_facts):
+                        return isinstance(op, ast.NotEq)
+            return None
+        v = self.ev(test, path)
+        if v[0] == 'const':
+            return bool(v[1])
+        if v[0] in ('func', 'closure', 'classref', 'line'):
+            return True
+        if v[0] == 'list' and not any(x[0] == 'star' for x in v[1]):
+            return bool(v[1])
+        return None
+
+    def head_candidates(self, path, use_ne=True):
+        """Finite set of values the head can still have on this path, or None when no positive membership fact bounds it."""
+        cands = None
+        for f in path.head_facts:
+            if f[0] == 'in' and f[2]:
+                vals = self.table_values(f[1]) if isinstance(f[1], tuple) else None
+                if vals is None:
+                    continue
+                cands = set(vals) if cands is None else cands & vals
+        if cands is None:
+            return None
+        for f in path.head_facts:
+            if f[0] == 'eq' and not f[2] and use_ne:
+                cands.discard(f[1])
+            if f[0] == 'in' and not f[2] and isinstance(f[1], tuple):
+                vals = self.table_values(f[1])
+                if vals is not None:
+                    cands -= vals
+        return cands
+
+    def _learn(self, test, path, polarity):
+        if isinstance(test, ast.UnaryOp) and isinstance(test.op, ast.Not):
+            return self._learn(test.operand, path, not polarity)
+        if isinstance(test, ast.BoolOp):
+            if (isinstance(test.op, ast.And) and polarity) or (isinstance(test.op, ast.Or) and not polarity):
+                for v in test.values:
+                    self._learn(v, path, polarity)
+            return
+        lr = self._len_of_rest(test, path)
+        if lr is not None:
+            v, op, n = lr
+            total = v[1] + v[2] + n
+            if (isinstance(op, ast.Eq) and polarity) or (isinstance(op, ast.NotEq) and not polarity):
+                path.exact_tokens = total
+            elif (isinstance(op, ast.GtE) and polarity) or (isinstance(op, ast.Lt) and not polarity):
+                path.min_tokens = max(path.min_tokens, total)
+            elif (isinstance(op, ast.Gt) and polarity) or (isinstance(op, ast.LtE) and not polarity):
+                path.min_tokens = max(path.min_tokens, total + 1)
+            return
+        if isinstance(test, ast.Call) and dotted(test.func) == 'is_int' and len(test.args) == 1:
+            path.tok_facts.append(('is_int', self.ev(test.args[0], path), polarity))
+            return
+        if isinstance(test, ast.Compare) and len(test.ops) == 1:
+            left = self.ev(test.left, path)
+            right = self.ev(test.comparators[0], path)
+            op = test.ops[0]
+            if isinstance(op, (ast.NotEq, ast.NotIn)):
+                polarity = not polarity
+            if self.is_head(left):
+                if isinstance(op, (ast.Eq, ast.NotEq)) and right[0] == 'const':
+                    path.head_facts.append(('eq', right[1], polarity, test))
+                elif isinstance(op, (ast.In, ast.NotIn)):
+                    if right[0] == 'ref':
+                        path.head_facts.append(('in', right, polarity, test))
+                    elif right[0] in ('const', 'list'):
+                        vals = self.table_values(right) if right[0] == 'const' else (
+                            {x[1] for x in right[1]} if all(x[0] == 'const' for x in right[1]) else None)
+                        if vals is not None and len(vals) == 1:
+                            path.head_facts.append(('eq', next(iter(vals)), polarity, test))
+                        elif vals is not None:
+                            path.head_facts.append(('in', ('const', frozenset(vals)), polarity, test))
+            elif left[0] in ('tok', 'tokend') and isinstance(op, (ast.Eq, ast.NotEq)) and right[0] == 'const':
+                path.tok_facts.append(('tok_eq', left, right[1], polarity))
+
+    # -- binding --------------------------------------------------------------------------------------------------------------
     def unpack(self, targets, value, path, node):
         """targets: list of ast targets (Name / Starred); value provenance."""
         star = [i for i, t in enumerate(targets) if isinstance(t, ast.Starred)]
@@ -115,8 +499,7 @@ class TokenFlow:
             k0, e0 = value[1], value[2]
             if not star:
                 need = k0 + n + e0
-                if e0 == 0 and k0 == 0:
-                    path.exact_tokens = n
+                path.exact_tokens = need
                 for i, t in enumerate(targets):
                     self.bind(t, ('tok', k0 + i), path)
                 path.min_tokens = max(path.min_tokens, need)
@@ -132,21 +515,240 @@ class TokenFlow:
                     self.bind(t, ('tokend', e0 + (n - i)), path)
             path.min_tokens = max(path.min_tokens, k0 + n - 1 + e0)
             return
-        if value[0] == 'list' and not star and len(value[1]) == n:
-            for t, v in zip(targets, value[1]):
-                self.bind(t, v, path)
-            return
-        if value[0] == 'const' and isinstance(value[1], (tuple, list)) and not star and len(value[1]) == n:
-            for t, v in zip(targets, value[1]):
-                self.bind(t, ('const', v), path)
-            return
+        if value[0] == 'const' and isinstance(value[1], (tuple, list)):
+            value = ('list', [('const', v) for v in value[1]])
+        if value[0] == 'list' and not any(x[0] == 'star' for x in value[1]):
+            elts = value[1]
+            if not star and len(elts) == n:
+                for t, v in zip(targets, elts):
+                    self.bind(t, v, path)
+                return
+            if star and len(elts) >= n - 1:
+                s = star[0]
+                after = n - s - 1
+                for i, t in enumerate(targets):
+                    if i < s:
+                        self.bind(t, elts[i], path)
+                    elif i == s:
+                        self.bind(t.value, ('list', elts[s:len(elts) - after]), path)
+                    else:
+                        self.bind(t, elts[len(elts) - (n - i)], path)
+                return
         for t in targets:
             self.bind(t.value if isinstance(t, ast.Starred) else t, ('expr', 'unpack of ' + str(value)), path)
 
     def bind(self, target, value, path):
         if isinstance(target, ast.Name):
             path.env[target.id] = value
+        elif isinstance(target, (ast.Tuple, ast.List)):
+            self.unpack(target.elts, value, path, target)
 
+    # -- inlining -------------------------------------------------------------------------------------------------------------
+    def _callee(self, call, path):
+        """(FunctionDef, closure env or None, name) for a call this evaluator walks instead of keeping it symbolic."""
+        if not (isinstance(call, ast.Call) and isinstance(call.func, ast.Name)):
+            return None
+        name = call.func.id
+        v = path.env.get(name)
+        if v is None:
+            if name in OPAQUE:
+                return None
+            if name in self.facts.funcs:
+                v = ('func', name)
+            elif name in self.facts.assign_nodes and name not in self.facts.tables and name not in self.facts.sets \
+                    and name not in self.consts and isinstance(self.facts.assign_nodes[name].value, (ast.Call, ast.Name)):
+                # PARSE_X = factory(...) / PARSE_X = other_function at module level
+                v = self.module_value(name)
+                if v is None:
+                    return None
+            else:
+                return None
+        if v[0] == 'func':
+            if v[1] in OPAQUE or v[1] not in self.facts.funcs:
+                return None
+            fn, env, fname = self.facts.funcs[v[1]], None, v[1]
+        elif v[0] == 'closure':
+            fn, env, fname = v[1], v[2], v[1].name
+        else:
+            return None
+        if any(f.name == fname and f.node is fn for f in self._frames) or len(self._frames) >= MAX_DEPTH:
+            return None
+        if fn.args.kwarg or any(isinstance(a, ast.Starred) for a in call.args) or any(k.arg is None for k in call.keywords):
+            return None
+        if fn.decorator_list:
+            return None
+        return fn, env, fname
+
+    def _inline(self, call, path, outcomes):
+        """[(path, return value)] of walking the callee with its parameters bound to the argument provenances."""
+        fn, cenv, fname = self._callee(call, path)
+        a = fn.args
+        pos = [x.arg for x in a.posonlyargs + a.args]
+        if len(call.args) > len(pos) and not a.vararg:
+            raise AnalysisError('token-flow: call {} passes more positional arguments than {} takes'.format(unparse(call), fname))
+        env = dict(cenv) if cenv is not None else {}
+        bound = set()
+        if a.vararg:
+            env[a.vararg.arg] = ('list', [self.ev(x, path) for x in call.args[len(pos):]])
+        for p_, arg in zip(pos, call.args):
+            env[p_] = self.ev(arg, path)
+            bound.add(p_)
+        names = set(pos) | {x.arg for x in a.kwonlyargs}
+        for kw in call.keywords:
+            if kw.arg not in names:
+                raise AnalysisError('token-flow: call {} passes unknown keyword {}'.format(unparse(call), kw.arg))
+            env[kw.arg] = self.ev(kw.value, path)
+            bound.add(kw.arg)
+        defaults = dict(zip(pos[len(pos) - len(a.defaults):], a.defaults))
+        for x, d in zip(a.kwonlyargs, a.kw_defaults):
+            if d is not None:
+                defaults[x.arg] = d
+        for p_ in pos + [x.arg for x in a.kwonlyargs]:
+            if p_ not in bound:
+                if p_ not in defaults:
+                    raise AnalysisError('token-flow: call {} leaves parameter {} of {} unbound'.format(unparse(call), p_, fname))
+                env[p_] = self.ev(defaults[p_], Path())
+        frame = _Frame(fname)
+        frame.node = fn
+        caller_env = path.env
+        path.env = env
+        self._frames.append(frame)
+        try:
+            live = self._block(fn.body, path, outcomes)
+        finally:
+            self._frames.pop()
+        out = []
+        for p_ in live:
+            if p_.flow is not None:
+                raise AnalysisError('token-flow: break/continue outside a loop in ' + fname)
+            out.append((p_, ('const', None)))
+        out.extend(frame.returns)
+        for p_, _ in out:
+            p_.env = dict(caller_env)
+        return out
+
+    def _lookup(self, n, path):
+        """(table name, {key: value name}, default node or None, subscript?) for TABLE.get(head[, default]) / TABLE[head] where TABLE
+        is a module-level dict literal with constant keys and the key is the head token."""
+        if isinstance(n, ast.Call) and isinstance(n.func, ast.Attribute) and n.func.attr == 'get' and 1 <= len(n.args) <= 2 \
+                and not n.keywords and isinstance(n.func.value, ast.Name):
+            tname, key, default, sub = n.func.value.id, n.args[0], (n.args[1] if len(n.args) == 2 else None), False
+        elif isinstance(n, ast.Subscript) and isinstance(n.value, ast.Name) and isinstance(getattr(n, 'ctx', None), ast.Load) \
+                and not isinstance(n.slice, ast.Slice):
+            tname, key, default, sub = n.value.id, n.slice, None, True
+        else:
+            return None
+        if tname in path.env or tname not in self.facts.tables or not isinstance(self.facts.assign_nodes.get(tname), ast.Assign) \
+                or not isinstance(self.facts.assign_nodes[tname].value, ast.Dict):
+            return None
+        if not self.is_head(self.ev(key, path)):
+            return None
+        return tname, self.facts.assign_nodes[tname].value, default, sub
+
+    def _expand_lookup(self, n, path, outcomes):
+        tname, dnode, default, sub = self._lookup(n, path)
+        groups = []             # (value provenance, value text, [keys])
+        keys_all = []
+        for k, v in zip(dnode.keys, dnode.values):
+            if k is None:
+                raise AnalysisError('token-flow: dispatch table {} uses ** unpacking'.format(tname))
+            try:
+                kv = fold(k, self.consts)
+            except NotConstant:
+                raise AnalysisError('token-flow: dispatch table {} has a non-constant key {}'.format(tname, unparse(k)))
+            keys_all.append(kv)
+            text = unparse(v)
+            for g in groups:
+                if g[1] == text:
+                    g[2].append(kv)
+                    break
+            else:
+                groups.append((v, text, [kv]))
+        out = []
+        for vnode, text, keys in groups:
+            keys = [k for k in keys if admits(self.facts, path, k)]
+            if not keys:
+                continue
+            p = path.clone()
+            if len(keys) == 1:
+                p.head_facts.append(('eq', keys[0], True, n))
+            else:
+                p.head_facts.append(('in', ('const', frozenset(keys)), True, n))
+            p.conds.append(('{} -> {}'.format(unparse(n), text), True, n))
+            for q, vn in self._hoist(vnode, p, outcomes):
+                out.append((q, self.ev(vn, q)))
+        cands = self.head_candidates(path)
+        if cands is None or (cands - set(keys_all)):
+            p = path
+            p.head_facts.append(('in', ('const', frozenset(keys_all)), False, n))
+            p.conds.append(('{} -> missing'.format(unparse(n)), True, n))
+            if sub:
+                outcomes.append(Outcome('raise', p, n))
+            else:
+                out.append((p, self.ev(default, p) if default is not None else ('const', None)))
+        return out
+
+    def _expandable(self, n, path):
+        if isinstance(n, ast.Call) and self._callee(n, path) is not None:
+            return True
+        return isinstance(n, (ast.Call, ast.Subscript)) and self._lookup(n, path) is not None
+
+    def _target(self, n, path):
+        """The next sub-expression to expand, in evaluation order: calls this evaluator can walk and dispatch-dict lookups innermost
+        first; a conditional expression before anything in its branches (only the branch taken is evaluated)."""
+        if isinstance(n, ast.IfExp):
+            return self._target(n.test, path) or n
+        if isinstance(n, (ast.Lambda, ast.ListComp, ast.GeneratorExp, ast.SetComp, ast.DictComp)):
+            return None
+        for child in ast.iter_child_nodes(n):
+            t = self._target(child, path)
+            if t is not None:
+                return t
+        return n if self._expandable(n, path) else None
+
+    def _hoist(self, node, path, outcomes):
+        """[(path, expression)]: every call this evaluator can walk, every lookup in a dispatch dict and every conditional expression
+        nested anywhere in the expression has been walked (forking paths) and replaced by a temporary bound to its value / by the
+        branch taken."""
+        if node is None:
+            return [(path, node)]
+        work = [(path, node)]
+        done = []
+        while work:
+            p, n = work.pop()
+            target = self._target(n, p)
+            if target is None:
+                done.append((p, n))
+                continue
+            if isinstance(target, ast.IfExp):
+                d = self.decide(target.test, p)
+                if d is None:
+                    self._paths += 1
+                    if self._paths > MAX_PATHS:
+                        raise AnalysisError('token-flow: path explosion (> {} forks)'.format(MAX_PATHS))
+                    tp, fp = p.clone(), p
+                    text = unparse(target.test)
+                    tp.conds.append((text, True, target.test))
+                    fp.conds.append((text, False, target.test))
+                    self._learn(target.test, tp, True)
+                    self._learn(target.test, fp, False)
+                    work.append((fp, _replace(n, target, target.orelse)))
+                    work.append((tp, _replace(n, target, target.body)))
+                else:
+                    work.append((p, _replace(n, target, target.body if d else target.orelse)))
+                continue
+            self._tmp += 1
+            tmp = '__inl{}'.format(self._tmp)
+            is_call = isinstance(target, ast.Call) and self._callee(target, p) is not None
+            repl = ast.copy_location(ast.Name(id=tmp, ctx=ast.Load()), target)
+            n2 = _replace(n, target, repl)
+            results = self._inline(target, p, outcomes) if is_call else self._expand_lookup(target, p, outcomes)
+            for s2, rv in reversed(results):
+                s2.env[tmp] = rv
+                work.append((s2, n2))
+        return done
+
+    # -- statements -----------------------------------------------------------------------------------------------------------
     def run(self, body, path=None):
         """Enumerate all paths through a statement list; returns list of Outcome."""
         outcomes = []
@@ -154,52 +756,84 @@ class TokenFlow:
         return outcomes
 
     def _block(self, body, path, outcomes):
-        """Returns list of live paths after the block."""
+        """Returns list of live paths after the block (paths that hit break / continue carry .flow and skip the rest)."""
         live = [path]
+        parked = []
         for st in body:
             nxt = []
             for p in live:
-                nxt.extend(self._stmt(st, p, outcomes))
+                for q in self._stmt(st, p, outcomes):
+                    (parked if q.flow is not None else nxt).append(q)
             live = nxt
             if not live:
                 break
-        return live
+        return live + parked
+
+    def _fork(self, test, path, outcomes, then_body, else_body):
+        if isinstance(test, ast.BoolOp) and len(test.values) >= 2:
+            # short-circuit evaluation as nested tests, so that each operand teaches its own fact:
+            #   if A or B: X else: Y   ==   if A: X else: (if B: X else: Y)      if A and B: X else: Y   ==   if A: (if B: X else: Y) else: Y
+            first = test.values[0]
+            rest = test.values[1] if len(test.values) == 2 else ast.copy_location(ast.BoolOp(op=test.op, values=test.values[1:]), test)
+            inner = ast.copy_location(ast.If(test=rest, body=then_body, orelse=else_body or []), test)
+            if isinstance(test.op, ast.Or):
+                return self._fork(first, path, outcomes, then_body, [inner])
+            return self._fork(first, path, outcomes, [inner], else_body)
+        out = []
+        for p, t in self._hoist(test, path, outcomes):
+            d = self.decide(t, p)
+            text = unparse(test)
+            if d is None:
+                self._paths += 1
+                if self._paths > MAX_PATHS:
+                    raise AnalysisError('token-flow: path explosion (> {} forks)'.format(MAX_PATHS))
+                tp, fp = p.clone(), p
+                tp.conds.append((text, True, test))
+                fp.conds.append((text, False, test))
+                self._learn(t, tp, True)
+                self._learn(t, fp, False)
+                out += self._block(then_body, tp, outcomes)
+                out += self._block(else_body, fp, outcomes) if else_body else [fp]
+            elif d:
+                out += self._block(then_body, p, outcomes)
+            else:
+                out += self._block(else_body, p, outcomes) if else_body else [p]
+        return out
 
     def _stmt(self, st, path, outcomes):
         if isinstance(st, ast.Assign) and len(st.targets) == 1:
-            tgt = st.targets[0]
-            if isinstance(tgt, ast.Tuple):
-                if isinstance(st.value, ast.Tuple) and len(st.value.elts) == len(tgt.elts):
-                    vals = [self.ev(e, path) for e in st.value.elts]
-                    for t, v in zip(tgt.elts, vals):
-                        self.bind(t, v, path)
-                else:
-                    self.unpack(tgt.elts, self.ev(st.value, path), path, st)
-            else:
-                self.bind(tgt, self.ev(st.value, path), path)
-            return [path]
-        if isinstance(st, ast.If):
-            t = path.clone()
-            f = path
-            text = unparse(st.test)
-            t.conds.append((text, True, st.test))
-            f.conds.append((text, False, st.test))
-            self._learn(st.test, t, True)
-            self._learn(st.test, f, False)
-            out = self._block(st.body, t, outcomes)
-            out += self._block(st.orelse, f, outcomes) if st.orelse else [f]
-            return out
-        if isinstance(st, ast.Return):
-            cls, args, kwargs = None, [], {}
-            if isinstance(st.value, ast.Call) and isinstance(st.value.func, ast.Name):
-                cls = st.value.func.id
-                for a in st.value.args:
-                    if isinstance(a, ast.Starred):
-                        args.append(('star', self.ev(a.value, path)))
+            out = []
+            for p, value in self._hoist(st.value, path, outcomes):
+                tgt = st.targets[0]
+                if isinstance(tgt, (ast.Tuple, ast.List)):
+                    if isinstance(value, (ast.Tuple, ast.List)) and len(value.elts) == len(tgt.elts) \
+                            and not any(isinstance(e, ast.Starred) for e in list(value.elts) + list(tgt.elts)):
+                        vals = [self.ev(e, p) for e in value.elts]
+                        for t, v in zip(tgt.elts, vals):
+                            self.bind(t, v, p)
                     else:
-                        args.append(self.ev(a, path))
-                kwargs = {kw.arg: self.ev(kw.value, path) for kw in st.value.keywords if kw.arg}
-            outcomes.append(Outcome('return', path, st, cls, args, kwargs))
+                        self.unpack(tgt.elts, self.ev(value, p), p, st)
+                else:
+                    self.bind(tgt, self.ev(value, p), p)
+                out.append(p)
+            return out
+        if isinstance(st, ast.If):
+            return self._fork(st.test, path, outcomes, st.body, st.orelse)
+        if isinstance(st, ast.Return):
+            for p, value in self._hoist(st.value, path, outcomes):
+                v = self.ev(value, p) if value is not None else ('const', None)
+                if v[0] == 'call' and v[1] in self.facts.classes and isinstance(value, ast.Call):
+                    p.ctor = (v, st)
+                if self._frames:
+                    self._frames[-1].returns.append((p, v))
+                    continue
+                cls, args, kwargs = None, [], {}
+                node = st
+                if v[0] == 'call':
+                    cls, args, kwargs = v[1], list(v[2]), dict(v[3])
+                    if p.ctor is not None and p.ctor[0] is v:
+                        node = p.ctor[1]
+                outcomes.append(Outcome('return', p, node, cls, args, kwargs))
             return []
         if isinstance(st, ast.Raise):
             outcomes.append(Outcome('raise', path, st))
@@ -208,58 +842,84 @@ class TokenFlow:
             # body on the normal path; each handler as an alternative path taken from the start of the try
             alt = [path.clone() for _ in st.handlers]
             out = self._block(st.body, path, outcomes)
+            if st.orelse:
+                nxt = []
+                for p in out:
+                    nxt += [p] if p.flow is not None else self._block(st.orelse, p, outcomes)
+                out = nxt
             for h, p in zip(st.handlers, alt):
                 p.conds.append(('except ' + (unparse(h.type) if h.type else '*'), True, None))
+                if h.name:
+                    p.env[h.name] = ('expr', h.name)
                 out += self._block(h.body, p, outcomes)
+            if st.finalbody:
+                nxt = []
+                for p in out:
+                    nxt += self._block(st.finalbody, p, outcomes)
+                out = nxt
             return out
-        if isinstance(st, (ast.Expr, ast.Pass)):
+        if isinstance(st, ast.Expr):
+            if isinstance(st.value, ast.Constant):
+                return [path]
+            return [p for p, _ in self._hoist(st.value, path, outcomes)]
+        if isinstance(st, (ast.Pass, ast.Assert, ast.Import, ast.ImportFrom, ast.Global, ast.Nonlocal)):
             return [path]
         if isinstance(st, ast.AugAssign):
             self.bind(st.target, ('expr', unparse(st)), path)
             return [path]
+        if isinstance(st, ast.FunctionDef):
+            path.env[st.name] = ('closure', st, path.env)
+            return [path]
+        if isinstance(st, ast.With):
+            for item in st.items:
+                if item.optional_vars is not None:
+                    self.bind(item.optional_vars, ('expr', unparse(item.context_expr)), path)
+            return self._block(st.body, path, outcomes)
+        if isinstance(st, ast.Break):
+            path.flow = 'break'
+            return [path]
+        if isinstance(st, ast.Continue):
+            path.flow = 'continue'
+            return [path]
+        if isinstance(st, ast.For):
+            return self._for(st, path, outcomes)
         raise AnalysisError('token-flow: statement form {} not modelled: {}'.format(type(st).__name__, unparse(st).split('\n')[0]))
 
-    def _learn(self, test, path, polarity):
-        # len(tokens) == n / != n
-        if (isinstance(test, ast.Compare) and len(test.ops) == 1 and isinstance(test.left, ast.Call)
-                and dotted(test.left.func) == 'len' and test.left.args and isinstance(test.left.args[0], ast.Name)
-                and test.left.args[0].id == self.tokens_name):
-            try:
-                n = fold(test.comparators[0])
-            except NotConstant:
-                return
-            if (isinstance(test.ops[0], ast.Eq) and polarity) or (isinstance(test.ops[0], ast.NotEq) and not polarity):
-                path.exact_tokens = n
+    def _for(self, st, path, outcomes):
+        """A loop over a literal (module-level or local) list / tuple of known length is unrolled in order."""
+        out = []
+        for p, it_node in self._hoist(st.iter, path, outcomes):
+            it = self.ev(it_node, p)
+            if it[0] == 'const' and isinstance(it[1], (list, tuple)):
+                it = ('list', [('const', x) for x in it[1]])
+            if it[0] != 'list' or any(x[0] == 'star' for x in it[1]):
+                raise AnalysisError('token-flow: loop over {} is not a loop over a literal table: {}'.format(
+                    unparse(st.iter), unparse(st).split('\n')[0]))
+            live = [p]
+            done = []
+            for elt in it[1]:
+                nxt = []
+                for q in live:
+                    self.bind(st.target, elt, q)
+                    for r in self._block(st.body, q, outcomes):
+                        if r.flow == 'break':
+                            r.flow = None
+                            done.append(r)
+                        else:
+                            r.flow = None
+                            nxt.append(r)
+                live = nxt
+                if not live:
+                    break
+            for q in live:
+                done += self._block(st.orelse, q, outcomes) if st.orelse else [q]
+            out += done
+        return out
 
 
-def parse_arms(facts):
-    """The if/elif chain of parse_item: list of (test node, body, kind, key) in order + else body."""
-    fn = facts.funcs.get('parse_item')
-    if fn is None:
-        raise AnalysisError('anchor vanished: parse_item')
-    chain = None
-    prelude = []
-    for st in fn.body:
-        if isinstance(st, ast.If):
-            chain = st
-            break
-        prelude.append(st)
-    if chain is None:
-        raise AnalysisError('anchor vanished: dispatch chain of parse_item')
-    arms = []
-    cur = chain
-    while True:
-        arms.append((cur.test, cur.body))
-        if len(cur.orelse) == 1 and isinstance(cur.orelse[0], ast.If):
-            cur = cur.orelse[0]
-        else:
-            else_body = cur.orelse
-            break
-    return fn, prelude, arms, else_body
-
-
+# -------------------------------------------------------------------------------------------------------------------------------------
 def arm_key(test):
-    """Classify an arm's test: ('table', NAME) for `head in NAME`, ('head', 'x') for head == 'x', else ('other', text)."""
+    """Classify a test node: ('table', NAME) for `head in NAME`, ('head', 'x') for head == 'x', else ('other', text)."""
     if isinstance(test, ast.Compare) and len(test.ops) == 1 and isinstance(test.left, ast.Name) and test.left.id == 'head':
         c = test.comparators[0]
         if isinstance(test.ops[0], ast.In) and isinstance(c, ast.Name):
@@ -269,53 +929,99 @@ def arm_key(test):
     return ('other', unparse(test))
 
 
-def parse_item_outcomes(facts):
-    """{arm key: [Outcome]} for every arm of parse_item."""
-    fn, prelude, arms, else_body = parse_arms(facts)
-    flow = TokenFlow(facts)
-    base = Path()
-    for st in prelude:
-        # line = line_tokens.line ; tokens = line_tokens.tokens ; head = tokens[0].lower()
-        if isinstance(st, ast.Assign) and isinstance(st.targets[0], ast.Name):
-            name = st.targets[0].id
-            if name in ('line', 'tokens'):
-                continue
-            base.env[name] = flow.ev(st.value, base)
-    out = []
-    for test, body in arms:
-        outcomes = flow.run(body, base.clone())
-        out.append((arm_key(test), test, outcomes))
-    else_out = flow.run(else_body, base.clone()) if else_body else []
-    return out, else_out
+def path_key(flow, path):
+    """(key, node) of the arm a path belongs to, from what it knows about the head; None for the else-outcomes."""
+    pos_eq = [f for f in path.head_facts if f[0] == 'eq' and f[2]]
+    if pos_eq:
+        return ('head', pos_eq[0][1]), pos_eq[0][3]
+    pos_in = [f for f in path.head_facts if f[0] == 'in' and f[2]]
+    if pos_in:
+        cands = flow.head_candidates(path)
+        # the only value left after `!=` tests of the others (a final `else` / fall-through arm)
+        if cands is not None and len(cands) == 1 and len(flow.head_candidates(path, use_ne=False)) > 1:
+            return ('head', next(iter(cands))), pos_in[0][3]
+        first = pos_in[0]
+        if first[1][0] == 'ref':
+            return ('table', first[1][1]), first[3]
+        # an anonymous set of names (keys of a dispatch dict that share a parser): the named table it spells, if any
+        vals = set(first[1][1])
+        f = flow.facts
+        named = [t for t in list(f.instruction_tables()) + sorted(f.sets) if table_values(f, ('ref', t)) == vals]
+        if not named:
+            named = [t for t in f.instruction_tables() if vals <= set(f.tables[t])]
+        if len(named) >= 1 and (len(named) == 1 or named[0] in f.instruction_tables()):
+            return ('table', named[0]), first[3]
+        return ('other', unparse(first[3])), first[3]
+    head_tests = {id(f[3]) for f in path.head_facts}
+    for text, pol, node in path.conds:
+        inner = node
+        while isinstance(inner, ast.UnaryOp) and isinstance(inner.op, ast.Not):
+            inner = inner.operand
+        if id(inner) in head_tests:
+            continue            # a test of the head that came out negative (`head not in TABLE` taken)
+        if pol:
+            return ('other', text), node
+    return None
 
 
-def chain_outcomes(facts, fn_name, tokens_name, line_name='line'):
-    """Generic version of parse_item_outcomes for a function whose body is `prelude; if/elif chain` over a token list
-    parameter (parse_immediate)."""
+_cache = {}
+
+
+def dispatch_outcomes(facts, fn_name, tokens_name=None, line_name='line'):
+    """([(arm key, test node, [Outcome])] in order of first appearance, else-outcomes) of a token-dispatching function."""
+    ck = (id(facts), fn_name, tokens_name, line_name)
+    hit = _cache.get(ck)
+    if hit is not None and hit[0] is facts:
+        return hit[1]
     fn = facts.funcs.get(fn_name)
     if fn is None:
         raise AnalysisError('anchor vanished: ' + fn_name)
-    flow = TokenFlow(facts, tokens_name=tokens_name, line_name=line_name)
+    params = [a.arg for a in fn.args.posonlyargs + fn.args.args]
+    roots = {}
+    if tokens_name is None:
+        # parse_item(line_tokens): one parameter carrying .line and .tokens
+        if len(params) != 1:
+            raise AnalysisError('{}: expected the single LineTokens parameter, found {}'.format(fn_name, params))
+        roots[params[0]] = ('line_tokens',)
+        flow = TokenFlow(facts, roots=roots)
+    else:
+        if tokens_name not in params:
+            raise AnalysisError('{}: token-list parameter {} vanished (parameters: {})'.format(fn_name, tokens_name, params))
+        roots[tokens_name] = ('rest', 0, 0)
+        if line_name in params:
+            roots[line_name] = ('line',)
+        flow = TokenFlow(facts, tokens_name=tokens_name, line_name=line_name, roots=roots)
     base = Path()
-    chain = None
-    for st in fn.body:
-        if isinstance(st, ast.If) and st.orelse:
-            chain = st
-            break
-        if isinstance(st, ast.Assign) and isinstance(st.targets[0], ast.Name):
-            base.env[st.targets[0].id] = flow.ev(st.value, base)
-    if chain is None:
-        raise AnalysisError('anchor vanished: dispatch chain of ' + fn_name)
+    base.env.update(roots)          # closures defined in the function see its parameters
+    outcomes = flow.run(fn.body, base)
     arms = []
-    cur = chain
-    while True:
-        arms.append((cur.test, cur.body))
-        if len(cur.orelse) == 1 and isinstance(cur.orelse[0], ast.If):
-            cur = cur.orelse[0]
-        else:
-            else_body = cur.orelse
-            break
-    out = []
-    for test, body in arms:
-        out.append((arm_key(test), test, flow.run(body, base.clone())))
-    return out, flow.run(else_body, base.clone())
+    index = {}
+    else_out = []
+    for o in outcomes:
+        k = path_key(flow, o.path)
+        if k is None:
+            else_out.append(o)
+            continue
+        key, node = k
+        if key not in index:
+            index[key] = len(arms)
+            arms.append((key, node, []))
+        arms[index[key]][2].append(o)
+    if not arms:
+        raise AnalysisError('anchor vanished: dispatch chain of ' + fn_name)
+    res = (arms, else_out)
+    _cache[ck] = (facts, res)
+    return res
+
+
+def parse_item_outcomes(facts):
+    """{arm key: [Outcome]} for every way parse_item tells lines apart (see the module docstring), plus the outcomes of lines that
+    match nothing."""
+    if 'parse_item' not in facts.funcs:
+        raise AnalysisError('anchor vanished: parse_item')
+    return dispatch_outcomes(facts, 'parse_item')
+
+
+def chain_outcomes(facts, fn_name, tokens_name, line_name='line'):
+    """Same for a function that takes the token list itself as a parameter (parse_immediate)."""
+    return dispatch_outcomes(facts, fn_name, tokens_name, line_name)
